@@ -91,6 +91,14 @@ func driveMSM(c *ctx) {
 			return idRep(big.NewInt(9))
 		case 5:
 			return rep(R2, add(randBig(r, add(bigP, -1)), 1))
+		case 7: // points that share a coordinate with the generator: -G (same x), in two representatives; lambda*G, lambda^2*G (same y)
+			return neg(G)
+		case 8:
+			return rep(neg(G), add(randBig(r, add(bigP, -1)), 1))
+		case 9:
+			return mulG(bigLambda)
+		case 10:
+			return neg(mulG(new(big.Int).Mod(new(big.Int).Mul(bigLambda, bigLambda), bigN)))
 		default:
 			return mulG(randBig(r, bigN))
 		}
@@ -147,11 +155,11 @@ func driveMSM(c *ctx) {
 	// lengths 0..6: every (scalar class, point class) pair in the first two slots, random classes afterwards
 	for n := 0; n <= 6; n++ {
 		if n == 0 {
-			run(0, rnd(6), rnd(7), false, 0)
+			run(0, rnd(6), rnd(11), false, 0)
 			continue
 		}
 		for sc := 0; sc < 6; sc++ {
-			for pc := 0; pc < 7; pc++ {
+			for pc := 0; pc < 11; pc++ {
 				sc, pc := sc, pc
 				first := func(cls, m int) func(int) int {
 					return func(i int) int {
@@ -161,7 +169,7 @@ func driveMSM(c *ctx) {
 						return r.Intn(m)
 					}
 				}
-				run(n, first(sc, 6), first(pc, 7), (sc+pc)%3 == 0, 0)
+				run(n, first(sc, 6), first(pc, 11), (sc+pc)%3 == 0, 0)
 			}
 		}
 	}
@@ -207,8 +215,8 @@ func driveMSM(c *ctx) {
 	}
 	// mismatched lengths
 	for n := 0; n <= 3; n++ {
-		run(n, rnd(6), rnd(7), false, 1)
-		run(n, rnd(6), rnd(7), false, -1)
+		run(n, rnd(6), rnd(11), false, 1)
+		run(n, rnd(6), rnd(11), false, -1)
 	}
 	// long lists
 	longs := []int{7, 8, 15, 16, 31, 32, 33, 64, 65, 67, 129, 130}
@@ -216,10 +224,10 @@ func driveMSM(c *ctx) {
 		longs = append(longs, 100, 127, 191, 193, 255, 257)
 	}
 	for _, n := range longs {
-		run(n, rnd(6), rnd(7), n%2 == 1, 0)
+		run(n, rnd(6), rnd(11), n%2 == 1, 0)
 	}
 	for i := 0; i < c.scale(10, 300); i++ {
-		run(2+r.Intn(5), rnd(6), rnd(7), i%2 == 0, 0)
+		run(2+r.Intn(5), rnd(6), rnd(11), i%2 == 0, 0)
 	}
 
 	// ---- DoubleScalarMultBasepointVartime
